@@ -112,7 +112,7 @@ def run(tier):
     R = common.Run(PID, "proof", tier)
     R.assume("A1", "A2", "A5")
     R.assume("the integrators call the right-hand side only through the object they are given (checked syntactically by the no-bypass scan); torch code paths are cut")
-    R.assume("the sub-steps taken by the recursive integrate() call that lands on a terminal event pass no callbacks (event handling is verified in C09; here events is None)")
+    R.assume("the sub-steps taken by the recursive integrate() call that lands on a terminal event are made without the caller's callbacks: pre-condition of the callee contract, proved at the call site in the terminal-event configuration of this check")
     R.trust("z3", "pyvc executor", "CPython ast for the package scan")
     src = source.load_all()
     reg = solver.Registry(solver.THOROUGH_TIMEOUT_MS if tier == "thorough" else 20000)
